@@ -243,12 +243,19 @@ ADD13 = {
  "C18": " The longest winbox auth message is the format's figure (293 bytes), and the package constant agrees with it.",
 }
 
+ADD14 = {
+ "C10": " random_choose is tabled over busy upstreams too (its least-loaded helper returns one whenever one is in the sample).",
+ "C14": " A prefix the module builds from a single address takes its length from the address's BitLen(); the dns matcher's Caddyfile tables also under this property.",
+ "C15": " Caddyfile parsers read numbers with base 10.",
+ "C17": " The proxy's pump reads the client through the connection it was given, never from the connection below the wrappers.",
+}
+
 checks = []
 for p in props:
     if p["id"] not in CLAIMS:
         continue
     tech, text, ref = CLAIMS[p["id"]]
-    text = text + ADD6.get(p["id"], "") + ADD7.get(p["id"], "") + ADD8.get(p["id"], "") + ADD9.get(p["id"], "") + ADD10.get(p["id"], "") + ADD11.get(p["id"], "") + ADD12.get(p["id"], "") + ADD13.get(p["id"], "")
+    text = text + ADD6.get(p["id"], "") + ADD7.get(p["id"], "") + ADD8.get(p["id"], "") + ADD9.get(p["id"], "") + ADD10.get(p["id"], "") + ADD11.get(p["id"], "") + ADD12.get(p["id"], "") + ADD13.get(p["id"], "") + ADD14.get(p["id"], "")
     checks.append({
         "property_id": p["id"],
         "quick_cmd": "./run.sh %s quick" % p["id"],
